@@ -113,6 +113,12 @@ Theorem cd_slope : forall pi fib f d s, f_disp fib = DispScalar d (Some s) ->
 Proof. exact Proofs.Fiber.cd_slope. Qed.
 Print Assumptions cd_slope.
 
+(* the case runner shares beta3 between the channels of a fibre with a dispersion table: same result *)
+Theorem run_sharing_sound : forall pi els f a,
+  propagate_path_with pi els (map (elem_shared pi) els) f a = propagate_path pi els f a.
+Proof. exact Proofs.Fiber.propagate_path_with_sound. Qed.
+Print Assumptions run_sharing_sound.
+
 (* ================================================================================================
    Raman on, Euler scheme: zero-power limit and "each lumped loss once" *)
 Theorem euler_zero_power : forall alpha cr p0 grid g g',
